@@ -76,6 +76,11 @@ Definition spec_method (c : mcmd) (r : aval) (arg : option aval) : option (list 
 Definition spec_cmd (c : ccmd) (arg : option aval) : option (list wclass * nat * flow) :=
   match c, arg with
   | CEnd, _ => Some ([], O, FEnd)
+  | CKill, Some a =>
+    match kill_depth a with
+    | Some _ => Some ([], 1%nat, FEnd)
+    | None => None
+    end
   | CWait, Some a =>
     match wait_flow a with
     | None => None
